@@ -768,6 +768,9 @@ pub fn run_c15(case: &Case) -> Outcome {
                 if answer == Some("Hold") && !ended {
                     viol!(a, "c15-false-while-held", "request {k} resolved false while the peer application still holds it undecided");
                 }
+                if answer.is_none() && responder_enabled && !ended {
+                    viol!(a, "c15-false-without-decision", "request {k} resolved false although the peer accepts bind requests, its application was never shown this request (so it neither rejected nor dropped it) and the connection is alive");
+                }
                 if answer == Some("Accept") && ended {
                     raced = true;
                 }
@@ -846,7 +849,7 @@ pub fn c15(ctx: &Ctx, rep: &mut Report) {
                 reuse probe: the id is proposed again by the next open. Non-trivial = >= 2 requests answered out of order, or an answer racing with teardown. Distinct = distinct case value."
         .into();
     rep.assumptions = sim_assumptions();
-    rep.assumptions.push("the responder drops a BindRequest only as the 'drop' answer; after reply() the request object is forgotten (BindRequest::drop always sends a Reset, documented behaviour)".into());
+    rep.assumptions.push("the responder drops a BindRequest only as the 'drop' answer; after reply() the request object is kept until the responder ends (BindRequest::drop always sends a Reset, documented behaviour)".into());
     let t = ctx.tier;
     ctx.prop(rep, "binds", t.pick(40_000, 1_200_000), 300, c15_case, run_c15);
     ctx.enumerate(
